@@ -238,6 +238,32 @@ def build_binaries(scratch):
     return bins
 
 
+class FatalInJd(Exception):
+    """the driver process was killed by a Go runtime fatal error (stack overflow, concurrent map access ...) raised
+    while jd's own code was running: behaviour of the real code that no recover() can turn into a trace record"""
+    def __init__(self, driver, output):
+        Exception.__init__(self, "fatal error inside jd while driving %s" % driver)
+        self.driver, self.output = driver, output
+
+
+def fatal_in_jd(out):
+    """True iff the output is a Go runtime 'fatal error' whose running goroutine was executing jd code
+    (its first frame outside package runtime belongs to github.com/josephburnett/jd)"""
+    if "fatal error:" not in out:
+        return False
+    lines = out.splitlines()
+    for i, ln in enumerate(lines):
+        if re.match(r"^goroutine \d+ .*\[running", ln):
+            for fn in lines[i + 1:i + 400]:
+                if not fn or fn[0] in " \t" or fn.startswith("runtime.") or fn.startswith("runtime/") or fn.startswith("..."):
+                    continue
+                if fn.startswith("goroutine "):
+                    break
+                return fn.startswith("github.com/josephburnett/jd")
+            return False
+    return False
+
+
 def run_driver(scratch, jdv, plan, tag):
     td = scratch.sub("trace-" + tag)
     plan = dict(plan)
@@ -248,6 +274,8 @@ def run_driver(scratch, jdv, plan, tag):
     t0 = time.time()
     p = subprocess.run([jdv, pf], stdout=subprocess.PIPE, stderr=subprocess.STDOUT, text=True)
     if p.returncode != 0:
+        if fatal_in_jd(p.stdout):
+            raise FatalInJd(plan["driver"], p.stdout)
         raise Infra("driver %s failed:\n%s" % (plan["driver"], p.stdout[-4000:]))
     summ = json.load(open(os.path.join(td, "summary.json")))
     summ["wall"] = time.time() - t0
